@@ -27,7 +27,7 @@ HOOKS = {"vsetup": "setup", "vteardown": "teardown", "vnsetup": "nsetup", "vntea
 CLUSTER_LOCK = "cluster_config.json.lock"
 STATE_AUDIT_PAT = (r"^(cluster_config\.json|job_status\.json|config_version\.txt|job_status_version\.txt|"
                    r"cluster_config\.json\.bk|job_status\.json\.bk|submitter\.lock|cluster_config\.json\.lock|"
-                   r"processed_results\.csv|results_batch_\d+\.csv|results\.json|config_batch_\d+\.json|"
+                   r"processed_results\.csv|results_batch_\d+\.csv|processed_results\.csv\.lock|results_batch_\d+\.csv\.lock|results\.json|config_batch_\d+\.json|"
                    r"run_batch_\d+\.sh|.*_batch_\d+\.sh|pipeline\.json|submitter_groups\.json|config\.json)$")
 
 
@@ -250,9 +250,15 @@ class World:
                 p.last_sub_before = st["sub"] if st else ""
             if op == "lock_released":
                 if base == CLUSTER_LOCK:
+                    st = project.read_status(d)
+                    p.last_sub_after = st["sub"] if st else ""      # what the operation left behind, read before anybody else moves
                     self._snap_status(d, p)
                 elif base.endswith(".csv.lock"):
-                    self._snap_rows(d if base.startswith("processed") else os.path.dirname(d), p, base)
+                    top = d if base.startswith("processed") else os.path.dirname(d)
+                    # the result files are looked at only while nobody is inside a critical section on any of them (with
+                    # file operations as scheduling points a process can be parked in the middle of one)
+                    if not (self.fault_mode and self._csv_lock_held(top)):
+                        self._snap_rows(top, p, base)
         elif op == "api":
             self._api(p, r)
         self._watch(p)
@@ -269,6 +275,10 @@ class World:
         self.last_status[d] = key
         st["rows"] = project.names_with_rows(d)
         self.ev(e="status", pid=p.pid if p else 0, dir=self._dname(d), **st)
+
+    def _csv_lock_held(self, top):
+        import glob as _glob
+        return bool(_glob.glob(os.path.join(top, "*.csv.lock")) or _glob.glob(os.path.join(top, "results", "*.csv.lock")))
 
     def _snap_rows(self, d, p, lockname):
         r = project.read_rows(d)
@@ -288,9 +298,12 @@ class World:
         if name == "promote":
             d = r["path"]
             st = project.read_status(d)
+            after = getattr(p, "last_sub_after", None)
+            if after is None or r.get("create"):
+                after = st["sub"] if st else ""
             self.ev(e="promote", pid=p.pid, host=p.host, ok=r["ok"], exc=r["exc"], dir=self._dname(d),
-                    before=("" if r.get("create") else p.last_sub_before),
-                    after=(st["sub"] if st else ""), create=bool(r.get("create")))
+                    before=("" if r.get("create") else p.last_sub_before), after=after, create=bool(r.get("create")))
+            p.last_sub_after = None
         elif name == "demote":
             self.ev(e="demote", pid=p.pid, host=p.host, ok=r["ok"], exc=r["exc"], dir=self._dname(r["path"]))
         elif name == "cop_begin":
